@@ -197,6 +197,7 @@ type SCCP struct {
 	busy    map[string]bool
 	Escapes []string
 	used    map[string]bool // binding keys that matched at least once
+	hasQualified bool       // some binding key is function-qualified ("fn:key")
 }
 
 // globalInits reads constant initialisers of module package variables from the init functions.
@@ -246,7 +247,15 @@ func newSCCP(c *Ctx, sc *Scenario) *SCCP {
 	if sc.MaxDepth == 0 {
 		sc.MaxDepth = 3
 	}
-	return &SCCP{c: c, sc: sc, globals: c.globalInits(), memo: map[string]*fnState{}, busy: map[string]bool{}, used: map[string]bool{}}
+	s := &SCCP{c: c, sc: sc, globals: c.globalInits(), memo: map[string]*fnState{}, busy: map[string]bool{}, used: map[string]bool{}}
+	for _, m := range []map[string]AVal{sc.Params, sc.Paths, sc.Calls, sc.Lookups, sc.Lens, sc.Phis} {
+		for k := range m {
+			if strings.Contains(k, ":") && !strings.HasPrefix(k, "init:") && !strings.HasPrefix(k, "type:") {
+				s.hasQualified = true
+			}
+		}
+	}
+	return s
 }
 
 func argsKey(fn *ssa.Function, args []AVal) string {
@@ -450,13 +459,15 @@ func (s *SCCP) lookupBinding(m map[string]AVal, fn *ssa.Function, key string) (A
 	if m == nil || key == "" {
 		return bot, false
 	}
-	if v, ok := m[fname(fn)+":"+key]; ok {
-		s.used[key] = true
-		return v, true
-	}
-	if v, ok := m[fn.Name()+":"+key]; ok {
-		s.used[key] = true
-		return v, true
+	if s.hasQualified {
+		if v, ok := m[fname(fn)+":"+key]; ok {
+			s.used[key] = true
+			return v, true
+		}
+		if v, ok := m[fn.Name()+":"+key]; ok {
+			s.used[key] = true
+			return v, true
+		}
 	}
 	v, ok := m[key]
 	if ok {
@@ -493,16 +504,39 @@ func (s *SCCP) phiBinding(fn *ssa.Function, x *ssa.Phi) (AVal, bool) {
 
 // bindingFor tries the variable-name path first and the type-qualified path second
 // ("fat2.Transaction.Conversion"): the latter survives renaming of locals.
+var (
+	vpCache sync.Map // ssa.Value -> string
+	tpCache sync.Map
+)
+
+func valuePathC(v ssa.Value) string {
+	if s, ok := vpCache.Load(v); ok {
+		return s.(string)
+	}
+	s := valuePath(v)
+	vpCache.Store(v, s)
+	return s
+}
+
+func typePathC(v ssa.Value) string {
+	if s, ok := tpCache.Load(v); ok {
+		return s.(string)
+	}
+	s := typePath(v)
+	tpCache.Store(v, s)
+	return s
+}
+
 func (s *SCCP) bindingFor(m map[string]AVal, fn *ssa.Function, v ssa.Value) (AVal, bool) {
-	if m == nil {
+	if len(m) == 0 {
 		return bot, false
 	}
-	if p := valuePath(v); p != "" {
+	if p := valuePathC(v); p != "" {
 		if b, ok := s.lookupBinding(m, fn, p); ok {
 			return b, true
 		}
 	}
-	if p := typePath(v); p != "" {
+	if p := typePathC(v); p != "" {
 		if b, ok := s.lookupBinding(m, fn, p); ok {
 			return b, true
 		}
@@ -915,7 +949,7 @@ func tupleOfTop(sig *types.Signature) AVal {
 }
 
 func (s *SCCP) callBinding(fn *ssa.Function, cc *ssa.CallCommon) (AVal, bool) {
-	if s.sc.Calls == nil {
+	if len(s.sc.Calls) == 0 {
 		return bot, false
 	}
 	name := calleeName(cc)
